@@ -110,7 +110,9 @@ func runWorkload(t *rapid.T, run c04Run, st *vfkit.Collector, label string) {
 			// whole - or, in the runs with failures, where the connection is closed on it for every other such question
 			if q.Transport == "udp" {
 				tm := KeyedAnswer(q.Msg, q.Up.Tag, uint32(q.Seq), run.ttl, 0)
-				tm.An = nil
+				if h[2]%2 == 0 {
+					tm.An = nil // (every other truncated answer still carries what fitted)
+				}
 				tm.Bits |= vfkit.BitTC
 				a.Reply = EncodeMsg(tm)
 				return a
